@@ -10,7 +10,7 @@
 //! time is +inf (an event that has not happened yet).
 //!
 //! Scenario descriptor:
-//! {"stages":[["M"|"S", len_100m], ..] (no two "S" adjacent, first and last "M"), "lockouts":bool,
+//! {"stages":[["M"|"S"|"J", len_100m], ..] (no two "S"/"J" adjacent; "J" = two-branch junction, only first or last), "lockouts":bool,
 //!  "foul":len_100m, "v":[m/s per stage], "grade":[1e-4 units per stage],
 //!  "trains":[{"dir":"E"|"W","depart":s,"ncars":n}, ..]}
 use altrios_core::meet_pass::dispatch::{run_dispatch, verif_hook};
@@ -28,7 +28,7 @@ const MS: f64 = 1000.0;
 
 /// Builds the netgen descriptor of the corridor. Returns (desc, east_orig, east_dest, west_orig, west_dest)
 /// (link indices, 1-based as in the network).
-fn corridor(d: &Value) -> (Value, u32, u32, u32, u32) {
+fn corridor(d: &Value) -> (Value, [u32; 2], [u32; 2], [u32; 2], [u32; 2]) {
     let lock = gb(d, "lockouts");
     let foul = d.get("foul").and_then(|x| x.as_i64()).unwrap_or(2);
     let vs = ga(d, "v");
@@ -40,6 +40,9 @@ fn corridor(d: &Value) -> (Value, u32, u32, u32, u32) {
         let len = st[1].as_i64().unwrap();
         if st[0].as_str().unwrap() == "M" {
             stages.push(vec![vec![len]]);
+        } else if st[0].as_str().unwrap() == "J" {
+            // junction: two plain branches (only as first or last stage): origins / destinations differ per train
+            stages.push(vec![vec![len], vec![len + 1]]);
         } else {
             let track = |extra: i64| {
                 if lock {
@@ -104,7 +107,7 @@ fn corridor(d: &Value) -> (Value, u32, u32, u32, u32) {
             }
         }
         // lockouts between the foul links of the two tracks of a siding stage (both ends, both directions)
-        if lock && st.len() == 2 {
+        if lock && st.len() == 2 && st[0].len() == 3 {
             for pi in [0usize, 2] {
                 let a = fwd[si][0][pi];
                 let b = fwd[si][1][pi];
@@ -137,15 +140,18 @@ fn corridor(d: &Value) -> (Value, u32, u32, u32, u32) {
             "elevs": [[0, 0], [l.len, rise]],
             "head": true, "rs": [[0, l.len, v]]}));
     }
-    let first = fwd[0][0][0] as u32;
-    let last = *fwd.last().unwrap()[0].last().unwrap() as u32;
+    // [branch 0, branch 1] at either end (equal when the end is not a junction)
+    let west: Vec<usize> = fwd[0].iter().map(|t| t[0]).collect();
+    let east: Vec<usize> = fwd.last().unwrap().iter().map(|t| *t.last().unwrap()).collect();
+    let w2 = [west[0] as u32, *west.last().unwrap() as u32];
+    let e2 = [east[0] as u32, *east.last().unwrap() as u32];
     (
         // 100 m units for offsets, m/s for speeds, centimetres for elevations
         json!({"oscale": 0.01, "vscale": 1, "escale": 100, "links": out}),
-        first,
-        last,
-        flip(last as usize) as u32,
-        flip(first as usize) as u32,
+        w2,                                                         // east-bound origins
+        e2,                                                         // east-bound destinations
+        [flip(e2[0] as usize) as u32, flip(e2[1] as usize) as u32], // west-bound origins
+        [flip(w2[0] as usize) as u32, flip(w2[1] as usize) as u32], // west-bound destinations
     )
 }
 
@@ -241,7 +247,10 @@ fn exec(desc: &Value, tr: &mut Tracer) -> anyhow::Result<()> {
     let mut tinfo = vec![];
     for (ti, t) in ga(desc, "trains").iter().enumerate() {
         let east = gs(t, "dir") == "E";
-        let (o, dd) = if east { (eo, ed) } else { (wo, wd) };
+        // "bo" / "bd": branch taken at a junction end for origin / destination (0 when absent)
+        let bo = t.get("bo").and_then(|x| x.as_u64()).unwrap_or(0) as usize % 2;
+        let bd = t.get("bd").and_then(|x| x.as_u64()).unwrap_or(0) as usize % 2;
+        let (o, dd) = if east { (eo[bo], ed[bd]) } else { (wo[bo], wd[bd]) };
         let lm = build::location_map(&[o], &[dd]);
         let tc = TrainConfig::new(
             vec![rv.clone()],
@@ -354,6 +363,20 @@ fn gen(seed: u64, n: usize, tier: &str) -> Vec<Value> {
         if stages.len() == 1 {
             stages.push(json!(["M", r.range(30, 150)]));
         }
+        // routes of at most 5 miles + train length are the known class F-C15-3 (materialised in known/):
+        // keep every route at least 10.5 km long
+        let total: i64 = stages.iter().map(|s| s[1].as_i64().unwrap()).sum();
+        if total < 105 {
+            stages.push(json!(["M", 105 - total + r.range(0, 40)]));
+        }
+        let jw = r.chance(1, 4);
+        let je = r.chance(1, 4);
+        if jw {
+            stages.insert(0, json!(["J", r.range(20, 60)]));
+        }
+        if je {
+            stages.push(json!(["J", r.range(20, 60)]));
+        }
         let v: Vec<i64> = (0..stages.len()).map(|_| r.range(8, 24)).collect();
         let grade: Vec<i64> = (0..stages.len()).map(|_| r.range(-30, 30)).collect(); // <= 0.3 %
         let nt = r.range(1, maxtr);
@@ -363,7 +386,8 @@ fn gen(seed: u64, n: usize, tier: &str) -> Vec<Value> {
             // departures: ties, short gaps (below spacing), long gaps
             t += *r.pick(&[0i64, 0, 60, 240, 600, 1800, 3600]);
             if t < 120 { t = 120; } // departures near 0 are the known class F-C15-1 (materialised in known/)
-            trains.push(json!({"dir": if r.chance(1,2) {"E"} else {"W"}, "depart": t, "ncars": r.range(15, 90)}));
+            trains.push(json!({"dir": if r.chance(1,2) {"E"} else {"W"}, "depart": t, "ncars": r.range(15, 90),
+                               "bo": r.range(0, 1), "bd": r.range(0, 1)}));
         }
         out.push(json!({"src":"gen","seed":seed,"k":k,"stages":stages,"lockouts":r.chance(1,2),"foul":2,
             "v":v,"grade":grade,"trains":trains}));
